@@ -6,6 +6,7 @@ import importlib
 import json
 import os
 import shutil
+import signal
 import sys
 import tempfile
 import time
@@ -64,7 +65,16 @@ class Ctx:
                 'foreign': self.foreign, 'notes': self.notes, 'wall_s': self.elapsed()}
 
 
+class CaseTimeout(BaseException):
+    pass
+
+
+def _on_alarm(sig, frm):
+    raise CaseTimeout()
+
+
 def generic_loop(mod, ctx):
+    signal.signal(signal.SIGALRM, _on_alarm)
     plan = mod.plan(ctx.tier)
     n = plan['cases_per_shard']
     cap = plan['time_cap_s']
@@ -74,7 +84,15 @@ def generic_loop(mod, ctx):
             break
         cs = case_seed(ctx.seed, ctx.shard, i)
         try:
-            mod.run_case(cs, ctx)
+            signal.alarm(plan.get('case_watchdog_s', 180))
+            try:
+                mod.run_case(cs, ctx)
+            finally:
+                signal.alarm(0)
+        except CaseTimeout:
+            ctx.cnt('case_watchdog_fired')
+            if len(ctx.notes) < 3:
+                ctx.notes.append({'case_watchdog': cs})
         except Exception as e:
             # a monitor that cannot cope with what the code did must not hide the
             # findings already recorded; many such errors make the run inconclusive
